@@ -13,7 +13,8 @@ variable {γ : Type}
 /-- A controller that only observes: tokens are serialised back to their raw bytes, emission is
 never disabled. (Handlers may fail.) -/
 structure Observing (ctl : Controller γ) : Prop where
-  token_raw : ∀ g t out, (ctl.token g t).2 = .ok out → out.chunks.flatten = t.raw
+  token_raw : ∀ g t, (ctl.token g t).2.err = none → (ctl.token g t).2.chunks.flatten = t.raw
+  token_err : ∀ g t e, (ctl.token g t).2.err = some e → (ctl.token g t).2.chunks.flatten = []
   shouldEmit : ∀ g, ctl.shouldEmit g = true
 
 def DInv (pre inp : Bytes) (d : Disp γ) : Prop :=
@@ -74,6 +75,14 @@ theorem pushChunks_spec (d : Disp γ) (cs : List Bytes) :
     (d.pushChunks cs).rcs = d.rcs ∧ (d.pushChunks cs).emissionEnabled = d.emissionEnabled ∧
     sinkBytes (d.pushChunks cs).sink = sinkBytes d.sink ++ (if d.emissionEnabled then cs.flatten else []) := by
   unfold Disp.pushChunks
+  have hf : ∀ cs : List Bytes, (cs.filter (fun c => !c.isEmpty)).flatten = cs.flatten := by
+    intro cs
+    induction cs with
+    | nil => rfl
+    | cons c cs ih =>
+      cases c with
+      | nil => simpa using ih
+      | cons x xs => simp [ih]
   split <;> simp_all
 
 /-- what `token_produced` does to the tiling-relevant fields -/
@@ -85,13 +94,18 @@ theorem tokenProduced_spec (hobs : Observing ctl) (d : Disp γ) (t : Token) :
           = sinkBytes d.sink ++ (if d.emissionEnabled then t.raw else [])
      | .error _ => sinkBytes (Disp.tokenProduced ctl d t).1.sink = sinkBytes d.sink) := by
   unfold Disp.tokenProduced
-  cases hres : (ctl.token d.ctl t).2 with
-  | error e => simp
-  | ok out =>
-    have hraw := hobs.token_raw _ _ _ hres
-    obtain ⟨h1, h2, h3⟩ := noteNextEncoding_frame { d with ctl := (ctl.token d.ctl t).1 } out.nextEncoding
-    obtain ⟨p1, p2, p3⟩ := pushChunks_spec (({ d with ctl := (ctl.token d.ctl t).1 }).noteNextEncoding out.nextEncoding) out.chunks
-    dsimp only at h1 h2 h3 ⊢
+  obtain ⟨h1, h2, h3⟩ := noteNextEncoding_frame { d with ctl := (ctl.token d.ctl t).1 } (ctl.token d.ctl t).2.nextEncoding
+  obtain ⟨p1, p2, p3⟩ := pushChunks_spec (({ d with ctl := (ctl.token d.ctl t).1 }).noteNextEncoding (ctl.token d.ctl t).2.nextEncoding) (ctl.token d.ctl t).2.chunks
+  dsimp only at h1 h2 h3 ⊢
+  cases herr : (ctl.token d.ctl t).2.err with
+  | some e =>
+    have := hobs.token_err _ _ _ herr
+    dsimp only
+    refine ⟨by rw [p1, h2], by rw [p2, h3], ?_⟩
+    rw [p3, h1, h3, this]; simp
+  | none =>
+    have hraw := hobs.token_raw _ _ herr
+    dsimp only
     refine ⟨by rw [p1, h2], by rw [p2, h3], ?_⟩
     rw [p3, h1, h3, hraw]
 
